@@ -479,6 +479,131 @@ example : (h1ErrorReplyAfter true none 2 [0x3c]).1.isSome = true ∧ (h1ErrorRep
           (h1ErrorReplyAfter true (some 200) 2 [0x3c]) = (none, true) ∧ (h1ErrorReplyAfter true (some 100) 2 [0x3c]) = (none, true) := by
   decide +kernel
 
+private theorem h1_reply_some (cw : Bool) (rel : Option Nat) (code : Nat) (m b : Bytes)
+    (h : (h1ErrorReplyAfter cw rel code m).1 = some b) :
+    cw = true ∧ rel = none ∧ (h1ErrorReplyAfter cw rel code m).2 = true ∧ ∃ s, errorStatus code = some s ∧ b = makeErrorResponse s m := by
+  have hrel := (error_page_only_before_any_head cw rel code m b h).1
+  subst hrel
+  unfold h1ErrorReplyAfter h1ErrorReply at h ⊢
+  cases cw with
+  | false => simp at h
+  | true =>
+    simp only [Option.isSome_none, Bool.not_true, Bool.false_eq_true, if_false] at h ⊢
+    cases hs : errorStatus code with
+    | none => rw [hs] at h; simp at h
+    | some s =>
+      rw [hs] at h
+      simp only [Option.some.injEq] at h ⊢
+      exact ⟨trivial, trivial, trivial, s, rfl, h.symm⟩
+
+private def H1Inv (c : H1Conn) : Prop :=
+  c.pages ≤ 1 ∧
+  (c.pages = 1 → c.canWrite = false ∧ ∃ s code m, errorStatus code = some s ∧ c.wire = makeErrorResponse s m) ∧
+  (c.pages = 0 → c.relayed = none → c.wire = [])
+
+private theorem h1Inv_step (c : H1Conn) (op : H1Op) (hi : H1Inv c) : H1Inv (h1Step c op) := by
+  obtain ⟨h1, h2, h3⟩ := hi
+  cases op with
+  | relay st hb =>
+    refine ⟨h1, ?_, ?_⟩
+    · intro hp
+      obtain ⟨hc, hw⟩ := h2 hp
+      simp only [h1Step, hc, Bool.false_eq_true, if_false]
+      exact ⟨trivial, hw⟩
+    · intro _ hr; simp [h1Step] at hr
+  | body ch =>
+    refine ⟨h1, ?_, ?_⟩
+    · intro hp
+      obtain ⟨hc, hw⟩ := h2 hp
+      simp only [h1Step, hc, Bool.false_and, Bool.false_eq_true, if_false]
+      exact ⟨trivial, hw⟩
+    · intro hp hr
+      have hr' : c.relayed = none := hr
+      simp only [h1Step, hr', Option.isSome_none, Bool.and_false, Bool.false_eq_true, if_false]
+      exact h3 hp hr'
+  | error code m =>
+    cases hr : (h1ErrorReplyAfter c.canWrite c.relayed code m).1 with
+    | none =>
+      simp only [H1Inv, h1Step, hr, Option.getD_none, List.append_nil, Option.isSome_none, Bool.false_eq_true, if_false,
+        Nat.add_zero]
+      refine ⟨h1, ?_, h3⟩
+      intro hp
+      obtain ⟨hc, hw⟩ := h2 hp
+      exact ⟨by simp [hc], hw⟩
+    | some b =>
+      obtain ⟨hcw, hrel, hcl, s, hs, hb⟩ := h1_reply_some _ _ _ _ _ hr
+      have hp0 : c.pages = 0 := by
+        rcases Nat.lt_or_ge c.pages 1 with hlt | hge
+        · omega
+        · have : c.pages = 1 := by omega
+          have := (h2 this).1; rw [hcw] at this; cases this
+      have hw := h3 hp0 hrel
+      simp only [H1Inv, h1Step, hr, Option.getD_some, Option.isSome_some, if_true, hp0, hw, List.nil_append, hcl,
+        Bool.not_true, Bool.and_false]
+      exact ⟨by omega, fun _ => ⟨trivial, s, code, m, hs, hb⟩, fun h => by omega⟩
+
+/-- **C12 (whole connection).** For EVERY sequence of relayed heads, body chunks and errors on one HTTP/1 client
+    connection: at most one error page is ever written, and if one was written the client's wire is exactly that one
+    complete, correctly framed response — nothing was relayed before it, nothing is written after it, and the
+    connection is closed. -/
+theorem h1_history_at_most_one_page (ops : List H1Op) :
+    (h1Run ops).pages ≤ 1 ∧
+    ((h1Run ops).pages = 1 → (h1Run ops).canWrite = false ∧
+      ∃ s code m, errorStatus code = some s ∧ 100 ≤ s ∧ s ≤ 999 ∧ (h1Run ops).wire = makeErrorResponse s m ∧
+        refParse (h1Run ops).wire = some (expected s (formatError s m))) := by
+  have hinv : ∀ (ops : List H1Op) (c : H1Conn), H1Inv c → H1Inv (ops.foldl h1Step c) := by
+    intro ops
+    induction ops with
+    | nil => intro c h; exact h
+    | cons op ops ih => intro c h; exact ih _ (h1Inv_step c op h)
+  have h0 : H1Inv ⟨none, true, [], 0⟩ := by
+    refine ⟨by decide, ?_, fun _ _ => rfl⟩
+    intro h; simp at h
+  have hrun : H1Inv (h1Run ops) := hinv ops _ h0
+  obtain ⟨h1, h2, _⟩ := hrun
+  refine ⟨h1, ?_⟩
+  intro hp
+  obtain ⟨hc, s, code, m, hs, hw⟩ := h2 hp
+  have hd := errorStatus_domain code s hs
+  exact ⟨hc, s, code, m, hs, hd.1, hd.2, hw, by rw [hw]; exact page_wellformed s m hd⟩
+
+example : (h1Run [.error 2 [0x3c], .error 2 [0x3c], .relay 200 [0x41]]).pages = 1 ∧
+          (h1Run [.relay 101 [0x41], .error 2 [0x3c]]) = ⟨some 101, false, [0x41], 0⟩ ∧
+          (h1Run [.relay 200 [0x41], .body [0x42], .error 2 [0x3c], .body [0x43]]).wire = [0x41, 0x42] := by decide +kernel
+
+/-- **C12 (the HTTP/2 send site).** Whatever the stream state, error code and message: if the HTTP/2 error path sends
+    a page at all, the stream could still take a response (open for us, no response HEADERS sent yet), the header
+    block is `:status` (three digits of a status 100..999) / `server` / `content-type: text/html`, and the body is the
+    page for exactly this message (to which all page theorems apply: no markup from the message, every & an entity).
+    In every other state it sends RST_STREAM or nothing — never a page after response headers. -/
+theorem h2_error_reply_page (closed openForUs headersSent : Bool) (code : Nat) (m : Bytes)
+    (hd : List (Bytes × Bytes)) (body : Bytes)
+    (h : h2ErrorReply closed openForUs headersSent code m = .page hd body) :
+    closed = false ∧ openForUs = true ∧ headersSent = false ∧
+    ∃ s, errorStatus code = some s ∧ 100 ≤ s ∧ s ≤ 999 ∧ hd = h2ErrorHeaders s ∧ hd.lookup nCT = some vHtml ∧
+      body = formatError s m ∧ body.filter isMarkup = (template s []).filter isMarkup ∧ ampsOk body = true := by
+  unfold h2ErrorReply at h
+  cases closed with
+  | true => simp at h
+  | false =>
+    simp only [Bool.false_eq_true, if_false] at h
+    cases hs : errorStatus code with
+    | none => rw [hs] at h; simp at h
+    | some s =>
+      rw [hs] at h
+      simp only at h
+      cases openForUs <;> cases headersSent <;> simp at h
+      obtain ⟨h1, h2⟩ := h
+      subst h1; subst h2
+      have hdom := errorStatus_domain code s hs
+      exact ⟨rfl, rfl, rfl, s, rfl, hdom.1, hdom.2, rfl, (h2_declares_html s).1, rfl,
+        page_markup_independent s m, page_amps_ok s m⟩
+
+example : h2ErrorReply false true false 2 [0x3c] = .page (h2ErrorHeaders 502) (formatError 502 [0x3c]) ∧
+          h2ErrorReply false true true 2 [0x3c] = .reset 2 ∧ h2ErrorReply false true false 7 [0x3c] = .reset 2 ∧
+          h2ErrorReply false true false 8 [] = .reset 13 ∧ h2ErrorReply false false true 11 [] = .reset 8 ∧
+          h2ErrorReply true true false 2 [] = .nothing := by decide +kernel
+
 -- a code without status (KILL = 7) closes without a page; a started response is never written into
 example : h1ErrorReply true false 7 [0x3c] = (none, true) ∧ h1ErrorReply true true 1 [0x3c] = (none, true) ∧
           h1ErrorReply false false 1 [0x3c] = (none, false) ∧ (h1ErrorReply true false 3 [0x3c]).1.isSome = true := by
